@@ -98,4 +98,7 @@ C11_run(H) ==
                /\ (a[1].p.kind = "echo_req" /\ b[1].p.kind = "echo_req") => a[1].p.eid # b[1].p.eid
                /\ (IsSynProbe(a[1].p) /\ IsSynProbe(b[1].p) /\ ~H.par.paris) =>
                      {a[j].p.ipid : j \in DOMAIN a} \cap {b[j].p.ipid : j \in DOMAIN b} = {}
+               \* UDP runs that are on the wire at the same time towards the same endpoint differ in their source port
+               /\ (a[1].p.kind = "udp" /\ b[1].p.kind = "udp" /\ a[1].p.dst = b[1].p.dst /\ a[1].p.dport = b[1].p.dport
+                   /\ a[1].t <= b[Len(b)].t /\ b[1].t <= a[Len(a)].t) => a[1].p.sport # b[1].p.sport
 =============================================================================
